@@ -73,6 +73,7 @@ type Stats struct {
 	mu          sync.Mutex
 	ID          string         `json:"id"`
 	Evaluations int            `json:"evaluations"`
+	Required    []string       `json:"required,omitempty"`
 	NonTrivial  []string       `json:"nontrivial"` // hashes of distinct non-trivial cases
 	Classes     map[string]int `json:"classes"`
 	Samples     []any          `json:"samples"`
@@ -164,6 +165,13 @@ func (s *Stats) Write() {
 // Healthy fails the run (exit 2 in the driver: no VIOLATION) when a class the
 // non-triviality rule depends on was never produced.
 func (s *Stats) Healthy(t *testing.T, required ...string) {
+	s.mu.Lock()
+	s.Required = append(s.Required, required...)
+	s.mu.Unlock()
+	if os.Getenv("VERIF_MERGED_HEALTH") == "1" {
+		// several shards of one engine: the driver judges the classes after merging the shards
+		return
+	}
 	for _, c := range required {
 		if s.Classes[c] == 0 {
 			t.Errorf("UNHEALTHY generator: class %q never produced", c)
